@@ -7,7 +7,7 @@ NEEDS = ('rqmc',)
 def run(tier, seed):
     res = common.Result('model_checking')
     args = ['4', '2', '1', '1'] if tier == 'quick' else ['5', '2', '2', '1']
-    doc = common.run_engine([common.RQMC, 'c03'] + args)
+    doc = common.run_engine_parts([common.RQMC, 'c03'] + args)
     common.merge_engine(res, doc)
     cov = res.coverage
     cov['bounds'] = {k: doc[k] for k in ('max_file_len', 'max_context', 'max_fuzz_limit', 'triples', 'files')}
